@@ -1,4 +1,4 @@
-// ---- stand-in for the two ntex_bytes types src/topic.rs uses (ByteString over Bytes; slice_ref / from_bytes_unchecked) ----
+// ---- stand-in for the two ntex_bytes types src/topic.rs uses (ByteString over Bytes; slice_ref / from_bytes_unchecked / slice) ----
 #![allow(unused, dead_code)]
 pub mod ntex_bytes {
     #[derive(Clone, Debug, PartialEq, Eq, Hash, PartialOrd, Ord, Default)]
@@ -18,6 +18,14 @@ pub mod ntex_bytes {
         pub fn as_bytes(&self) -> &Bytes { &self.0 }
         pub unsafe fn from_bytes_unchecked(b: Bytes) -> ByteString { ByteString(b) }
         pub fn as_str(&self) -> &str { unsafe { std::str::from_utf8_unchecked(&(self.0).0) } }
+        /// sub-string by byte range (the real one shares the buffer and panics off a char boundary, as `str` indexing does)
+        pub fn slice(&self, r: impl std::ops::RangeBounds<usize>) -> ByteString {
+            use std::ops::Bound::*;
+            let s = self.as_str();
+            let a = match r.start_bound() { Included(&x) => x, Excluded(&x) => x + 1, Unbounded => 0 };
+            let b = match r.end_bound() { Included(&x) => x + 1, Excluded(&x) => x, Unbounded => s.len() };
+            ByteString::from(&s[a..b])
+        }
     }
     impl PartialEq<str> for ByteString { fn eq(&self, o: &str) -> bool { self.as_str() == o } }
     impl PartialEq<&str> for ByteString { fn eq(&self, o: &&str) -> bool { self.as_str() == *o } }
